@@ -427,6 +427,9 @@ func (eng *Engine) frameObligations(fn *ssa.Function, fc *FuncContract) []struct
 				if cfc == nil && cc.IsInvoke() && cc.Method.Name() == "Error" && len(cc.Args) == 0 {
 					continue // error.Error(): pure
 				}
+				if cfc == nil && callee != nil && pureStdlib(pkgPathOf(callee), callee) {
+					continue // value-level standard-library helper: treated as pure by the symbolic execution too
+				}
 				if cfc == nil {
 					if callee != nil && (eng.autoInline(callee)) {
 						continue // small helper inlined; its stores are checked when it is verified itself (conservative gap noted)
